@@ -55,6 +55,10 @@ class Prop:
     def known(self, case, line, failure):
         return None
 
+    def cross(self, cases, impl):
+        """cross-case oracle: list of (index, failure message)"""
+        return []
+
     def known_disagreement(self, case, il, ml):
         return False
 
